@@ -78,7 +78,7 @@ def run(module, *, constants=None, defs=None, init="Init", next="Next", spec=Non
         invariants=(), properties=(), constraints=(), action_constraints=(),
         postcondition=None, view=None, deadlock=False, workers=16, timeout=900,
         simulate=None, depth=None, seed=None, env=None, coverage=False,
-        extends_extra=(), keep=None, depth_first=False, heap="8g"):
+        extends_extra=(), extra_text="", keep=None, depth_first=False, heap="8g"):
     """Model-check `module` (a file in spec/) with a generated MC wrapper.
 
     constants: {name: python value} written literally into the cfg.
@@ -98,6 +98,8 @@ def run(module, *, constants=None, defs=None, init="Init", next="Next", spec=Non
                  "EXTENDS %s" % ", ".join([module] + list(extends_extra))]
         for k, v in defs.items():
             lines.append("MC_%s == %s" % (k, v))
+        if extra_text:
+            lines.append(extra_text)
         lines.append("====")
         with open(os.path.join(scratch, mc + ".tla"), "w") as fh:
             fh.write("\n".join(lines) + "\n")
